@@ -17,7 +17,7 @@ tla/Views/Views.tla   Query(client, name, type, internal) over the configuration
   - TLC exhaustive: MC_Views (5 configurations: lan-then-vpn, vpn-then-lan, vpn-then-everyone (0.0.0.0/0 + ::/0), lan-then-vpn
     behind an access list, no views; chaos on / off; 8 clients in / out of nested networks, v4-mapped, IPv6; 14 names around two
     wildcards, an empty zone and three class-CH names; 4 types; cache of <= 1 entry, MC_Views2 (thorough) <= 2), 20 invariants
-    quantified over every query in every reachable state; 27 negative twins (model mutants that must each violate their
+    quantified over every query in every reachable state; 24 negative twins (model mutants that must each violate their
     named invariant).
   - spec -> code (harness/xviews TestXViews): TLC-simulated behaviours forced on the REAL default chain ahead of `failover`
     (accesslist ... chaos ... views ... as112 ... cache) with a scripted downstream; every step enters decoded (ServeMsg),
